@@ -94,7 +94,7 @@ structure Perm where
   /-- the write path: `pop`, `unpop`, `mark` -/
   write : Prop := False
   cut : Nat → Prop := fun _ => False
-  rpush : Nat → REvent → Prop := fun _ _ => False
+  rpush : Nat → Prop := fun _ => False
   rpop : Nat → Prop := fun _ => False
   rclear : Nat → Prop := fun _ => False
 
@@ -104,7 +104,7 @@ def Perm.ok (P : Perm) : Lbl → Prop
   | .unpop _ _ => P.write
   | .mark _ => P.write
   | .cut k _ => P.cut k
-  | .rpush k e => P.rpush k e
+  | .rpush k _ => P.rpush k
   | .rpop k _ => P.rpop k
   | .rclear k => P.rclear k
   | .gone _ => True
